@@ -22,4 +22,8 @@ INVARIANT BadZonesRefused
 INVARIANT ParamsOk
 INVARIANT LongApexLaws
 INVARIANT EmitLongApex
+INVARIANT Nsec3FlagsOk
+INVARIANT FlagLawsOk
+INVARIANT EmitFlags
+INVARIANT EmitFlagAccessors
 CHECK_DEADLOCK FALSE
